@@ -245,6 +245,36 @@ func runC11(c *Ctx) {
 			dig += ".M" + h64(strings.Join(parts, "\x00"))
 			c.Count("multi_value_decoder_cases", 1)
 		}
+		if i%250 == 77 && dig != "PANIC" {
+			// documents of more than 65536 nodes one after the other (pooled parser state: node buffers
+			// that were grown, positions at which a buffer filled up): record-shaped arrays whose
+			// alignment is shifted by 0-5 leading scalars, decoded into interface{} and []struct
+			r := c.Rng(i + 1<<24)
+			var parts []string
+			c.Guard(i, "big documents in sequence", func() {
+				for k := 0; k < 5; k++ {
+					n := 22000 + r.Intn(6000)
+					doc := "[" + strings.Repeat("0,", r.Intn(6)) + strings.Repeat(`{"k":1},`, n) + `{"k":2,"s":"x"}]`
+					var v interface{}
+					err := cs.cfg.api.UnmarshalFromString(doc, &v)
+					l := -1
+					if a, ok := v.([]interface{}); ok {
+						l = len(a)
+					}
+					parts = append(parts, fmt.Sprint(err == nil, l))
+					var recs []struct {
+						K int    `json:"k"`
+						S string `json:"s"`
+					}
+					doc2 := "[" + strings.Repeat(`{"k":1},`, n+r.Intn(7)) + `{"k":2,"s":"x"}]`
+					err = cs.cfg.api.UnmarshalFromString(doc2, &recs)
+					parts = append(parts, fmt.Sprint(err == nil, len(recs)))
+				}
+			})
+			c.Vf("BIGSEQ %s", strings.Join(parts, " "))
+			dig += ".B" + h64(strings.Join(parts, "|"))
+			c.Count("big_document_sequences", 1)
+		}
 		c.Digest(i, dig+" "+strings.Join(flags, ","))
 		c.Distinct(gen.HashString(gen.Describe(cs.t)+"|"+cs.cfg.name+"|"+cs.doc), len(cs.doc) >= 2)
 		c.Count("cfg_"+cs.cfg.name, 1)
